@@ -12,16 +12,23 @@ Rec(a, s, n, pad, es, t, v) == [a |-> a, s |-> s, n |-> n, pad |-> pad, es |-> e
 Ctl ==
   \/ \E s \in Streams, n \in DataSizes, p \in PadSizes, es \in BOOLEAN :
         ASendData(s, n, p, es) /\ hist' = Append(hist, Rec("data", s, n, p, es, "-", 0))
-  \/ \E s \in Streams, es \in BOOLEAN :
-        \/ ASendHeaders(s, es) /\ hist' = Append(hist, Rec("headers", s, 0, 0, es, "-", 0))
-        \/ ASendHeadersOpen(s, es) /\ hist' = Append(hist, Rec("headers_open", s, 0, 0, es, "-", 0))
+  \* n = 1: a header block larger than a frame (only possible with CONTINUATION); pad = 1: the HEADERS frame carries
+  \* priority fields - neither changes the relay's state in the model, both change how the block is split on the wire
+  \/ \E s \in Streams, es \in BOOLEAN, prio \in {0, 1} :
+        \/ ASendHeaders(s, es) /\ hist' = Append(hist, Rec("headers", s, 0, prio, es, "-", 0))
+        \/ \E big \in {0, 1} : ASendHeadersOpen(s, es) /\ hist' = Append(hist, Rec("headers_open", s, big, prio, es, "-", 0))
   \/ AContinuation /\ hist' = Append(hist, Rec("cont", cont.s, 0, 0, FALSE, "-", 0))
-  \/ \E s \in Streams : ASendRst(s) /\ hist' = Append(hist, Rec("rst", s, 0, 0, FALSE, "-", 0))
+  \/ \E s \in Streams, c \in RstCodes : ASendRst(s, c) /\ hist' = Append(hist, Rec("rst", s, c, 0, FALSE, "-", 0))
+  \* (PUSH_PROMISE only makes sense from the server: the harness skips it in the other direction)
+  \/ \E s \in Streams, p \in Promised : ASendPush(s, p) /\ hist' = Append(hist, Rec("push", s, p, 0, FALSE, "-", 0))
+  \/ \E s \in Streams : ASendPrio(s) /\ hist' = Append(hist, Rec("prio", s, 0, 0, FALSE, "-", 0))
+  \/ \E d \in Pings : ASendPing(d) /\ hist' = Append(hist, Rec("ping", 0, d, 0, FALSE, "-", 0))
+  \/ nSend >= MaxSend - 2 /\ ASendGoAway /\ hist' = Append(hist, Rec("goaway", 0, 0, 0, FALSE, "-", 0))   \* towards the end only
   \/ \E s \in Streams \cup {0}, i \in Incs :
         BCtl([t |-> "WU", s |-> s, v |-> i]) /\ hist' = Append(hist, Rec("ctl", s, 0, 0, FALSE, "WU", i))
   \/ \E v \in InitWins : BCtl([t |-> "SI", s |-> 0, v |-> v]) /\ hist' = Append(hist, Rec("ctl", 0, 0, 0, FALSE, "SI", v))
   \/ \E v \in MaxFrames : BCtl([t |-> "SM", s |-> 0, v |-> v]) /\ hist' = Append(hist, Rec("ctl", 0, 0, 0, FALSE, "SM", v))
-Internal == UNCHANGED hist /\ (WriterSend \/ ApplyCtl)
+Internal == UNCHANGED hist /\ (WriterSend \/ ApplyCtl \/ BRecvGoAway \/ \E d \in Pings : BRecvPing(d))
 GNext == Ctl \/ Internal
 GSpec == GInit /\ [][GNext]_gvars
 Emit == hist # <<>> => PrintT(ToJson([h |-> hist]))
